@@ -57,6 +57,28 @@ def _obj_of(ip, st, v):
     raise I.InterpError("expected a GcPtr, got %r" % (v,))
 
 
+def arena_value(prog, cx=None):
+    """An `Arena` value for the interpreter, built from the struct's own field list: the field that owns the collector
+    context refers to the modelled context, the (possibly unsized, last) root field is an opaque root value, marker
+    fields (PhantomData) are empty markers."""
+    cx = cx if cx is not None else ref(("ctx",), ())
+    a = prog.all_adts.get("arena::Arena")
+    fields = []
+    for f in (a["variants"][0]["fields"] if a else []):
+        s_ = f.get("ty_s", "")
+        if "Context" in s_:
+            fields.append(cx)
+        elif "Rootable<" in s_:
+            fields.append(("sym", "root"))
+        elif "PhantomData" in s_:
+            fields.append(adt("core::marker::PhantomData", 0, ()))
+        else:
+            fields.append(TOP)
+    if not fields:
+        fields = [cx, ("sym", "root")]
+    return adt("arena::Arena", 0, tuple(fields))
+
+
 def _hdr(ip, st, v, what):
     if v[0] == "ref" and v[1][0] == "H":
         oid = v[1][1]
